@@ -313,7 +313,7 @@ func (s *SSH) line(l string) {
 		}
 		if l == "enable" && dev == DevError {
 			// enable refused without asking for a password
-			s.emit("enable\r\n% Error in authentication.\r\n\r\n" + s.Hostname + "> ")
+			s.emit("enable\r\n% No password set\r\n\r\n" + s.Hostname + "> ")
 			return
 		}
 		if l == "enable" {
